@@ -276,8 +276,33 @@ class Builder:
         return [o.id for o in session.execute(obj).scalars().unique().all()], None
 
 
+def strip_subqueries(sql):
+    """The statement without its parenthesised sub-SELECTs (EXISTS(...) etc.): joins
+    inside a lambda's subquery are not joins of the host query."""
+    out, i, n = [], 0, len(sql)
+    up = sql.upper()
+    while i < n:
+        if sql[i] == "(" and up[i + 1:i + 8].lstrip().startswith("SELECT"):
+            depth = 0
+            while i < n:
+                if sql[i] == "(":
+                    depth += 1
+                elif sql[i] == ")":
+                    depth -= 1
+                    if depth == 0:
+                        i += 1
+                        break
+                i += 1
+            out.append("(...)")
+        else:
+            out.append(sql[i])
+            i += 1
+    return "".join(out)
+
+
 def count_joins(sql, table):
-    """Number of JOIN clauses onto ``table`` in a compiled statement."""
+    """Number of JOIN clauses onto ``table`` in the outer query of a compiled statement."""
+    sql = strip_subqueries(sql)
     return len(re.findall(r'JOIN\s+"?%s"?(?:\s+AS\s+"?\w+"?|\s+"?\w+"?)?\s+ON' % re.escape(table),
                           sql, flags=re.I))
 
